@@ -14,7 +14,7 @@ ASSUMPTIONS = ["signatures present are non-malleable (ground-truth table)",
 SHARED_DEFECTS = [None, "sublinks_missing", "sublinks_in_parent_dir", "sublink_tampered", "sublink_unauthorised",
                   "foreign_step_rule", "foreign_step_rule"]
 DEFECTS = [None, None, "wrong_signer", "expired", "edited", "sublinks_missing", "sublinks_in_parent_dir",
-           "sublink_tampered", "subrule", "subinspection_fail", "subinspection_slow"]
+           "sublink_tampered", "subrule", "subinspection_fail", "subinspection_slow", "stepless_subinspection_fail"]
 
 
 def find_spec(ch, path):
@@ -24,6 +24,23 @@ def find_spec(ch, path):
         cur = cur.steps[si]["links"][li]["sub"]
     si, li = path[-1]
     return cur, cur.steps[si], cur.steps[si]["links"][li]
+
+
+def make_stepless(ch, path):
+    """The sub chain at `path` becomes a layout without steps (its inspections stay). At depth 1 it is also made the only
+    evidence of its step, in a root layout that does not mind a summary link without artifacts (returns True)."""
+    parent, pstep, spec = find_spec(ch, path)
+    spec["sub"].steps = []
+    if len(path) != 1:
+        return False
+    pstep["links"] = [spec]
+    pstep["keys"] = [spec["k"]]
+    pstep["threshold"] = 1
+    for s_ in parent.steps:
+        s_["rules"] = ([["ALLOW", "*"]], [["ALLOW", "*"]])
+    for x in parent.inspections:
+        x["rules_m"] = x["rules_p"] = [["ALLOW", "*"]]
+    return True
 
 
 def clone_sub(sub, owner):
@@ -150,6 +167,10 @@ def gen_case(rng, root):
             st["rules"] = ([["DISALLOW", "*"]] if st["materials"] else [["REQUIRE", "nothing"]], [["REQUIRE", "not-there"]])
         elif defect == "subinspection_fail":
             sub.inspections = [{"name": "failing", "ident": "f%d" % rng.randrange(1000), "action": "exit1"}]
+        elif defect == "stepless_subinspection_fail":
+            # a delegated layout without steps is still a layout: its inspections run and must pass
+            sub.inspections = [{"name": "failing", "ident": "f%d" % rng.randrange(1000), "action": "exit1"}]
+            desc["decisive"] = make_stepless(ch, path)
         elif defect == "subinspection_slow":
             # (the verifier's time limit - 5 s here, see one_case - applies at every depth; the command sleeps 8.5 s,
             #  which is within the 10 s default)
